@@ -96,7 +96,33 @@ pub fn exec_op<'tx>(tx: &Tx<'tx>, op: &'tx Op, owned: bool) -> Ret {
         }
         match (op, &b) {
             (Op::Put { key, val, .. }, Some(b)) => {
-                let r = if owned { b.put(key.clone(), val.clone()) } else { b.put(key.as_slice(), val.as_slice()) };
+                // with `owned` the argument types rotate through everything ToBytes is implemented
+                // for: Vec<u8>, String, bytes::Bytes, &bytes::Bytes, fixed-size arrays
+                let style = if owned { 1 + (key.len() + val.len()) % 5 } else { 0 };
+                let r = match style {
+                    0 => b.put(key.as_slice(), val.as_slice()),
+                    1 => b.put(key.clone(), val.clone()),
+                    2 => match (String::from_utf8(key.clone()), String::from_utf8(val.clone())) {
+                        (Ok(k), Ok(v)) => b.put(k, v),
+                        _ => b.put(key.clone(), val.clone()),
+                    },
+                    3 => b.put(bytes::Bytes::from(key.clone()), bytes::Bytes::from(val.clone())),
+                    4 => {
+                        let kb = bytes::Bytes::from(key.clone());
+                        b.put(&kb, val.as_slice())
+                    }
+                    _ => {
+                        if key.len() == 2 {
+                            let arr: [u8; 2] = [key[0], key[1]];
+                            b.put(arr, val.clone())
+                        } else if key.len() == 3 {
+                            let arr: [u8; 3] = [key[0], key[1], key[2]];
+                            b.put(arr, val.clone())
+                        } else {
+                            b.put(key.as_slice(), bytes::Bytes::from(val.clone()))
+                        }
+                    }
+                };
                 match r {
                     Ok(prev) => Ret::Prev(prev.map(|kv| (kv.key().to_vec(), kv.value().to_vec()))),
                     Err(e) => Ret::Err(err_kind(&e)),
